@@ -103,11 +103,11 @@ def write_lib(base: Path) -> Path:
 
 
 # =====================================================================================
-# real-code side (worker and agent processes only)
+# real-code side (worker, zygote and agent processes only)
 
 
 class Real:
-    """everything that touches experimaestro; constructed once per worker/agent process"""
+    """everything that touches experimaestro; constructed once per worker / zygote process"""
 
     def __init__(self, libdir):
         import logging
@@ -222,10 +222,6 @@ class Real:
         if sync:  # the first segment of aio_submit (which creates the link) has run once this returns
             asyncio.run_coroutine_threadsafe(asyncio.sleep(0), xp.loop).result(timeout=30)
         return rel, res
-
-
-def label_of(op):
-    return op["job"]
 
 
 def observe(ws, name, relmap, want_orphans=True):
@@ -394,8 +390,7 @@ def agent_loop(real, fin, out):
                 return orig_unlink(path, *a, **kw)
             return orig_unlink(path, *a, dir_fd=dir_fd, **kw)
 
-        if cmd.get("kill_enter") is not None or True:
-            os.rename, os.unlink = rename, unlink
+        os.rename, os.unlink = rename, unlink
 
         def before_with():
             if cmd.get("kill_enter") is not None:
@@ -1358,7 +1353,7 @@ def correspond(ctx):
         "fcntl/fasteners: mutual exclusion between processes and release on process death (exercised, not proved)",
         "local filesystem semantics of rename/unlink/symlink (atomic per call)",
     ]
-    n = ctx.scale(100, 1200)
+    n = ctx.scale(150, 2000)
     hists = [dict(h) for h in CORPUS] + [gen_history(ctx.rng, f"{ctx.seed}-{i}") for i in range(n)]
     for k in range(0, len(hists), 240):  # fresh workers per batch (a worker leaks a thread and a few fds per run)
         run_histories(ctx, hists[k:k + 240])
